@@ -258,6 +258,16 @@ func (x *Exec) applyContract(st *State, ct *Contract, sig *types.Signature, name
 		g := x.evalBool(ctx, r)
 		x.check(st, fmt.Sprintf("call:%s#%d:pre%d", cn.name, cn.ord, i+1), "", nil, g, r.String())
 	}
+	if ct.Decreases != nil && x.contract == ct {
+		// self-recursion: the measure decreases and is bounded below
+		m1 := x.evalInt(ctx, ct.Decreases)
+		top := st.frameBottom()
+		tctx := x.specCtx(st, top)
+		tctx.st = tctx.oldState()
+		tctx.inOld = true
+		m0 := x.evalInt(tctx, ct.Decreases)
+		x.check(st, fmt.Sprintf("call:%s#%d:dec", cn.name, cn.ord), "", nil, b.And(b.Lt(m1, m0), b.Le(b.Int(0), m0)), "recursion measure decreases: "+ct.Decreases.String())
+	}
 	if st.dead {
 		return
 	}
@@ -317,7 +327,20 @@ func (x *Exec) applyContract(st *State, ct *Contract, sig *types.Signature, name
 		x.applyGhostSet(post, gs)
 	}
 	for _, e := range ct.Ensures {
-		st.assume(x.evalBool(post, e))
+		f := x.evalBool(post, e)
+		st.assume(f)
+		// a scalar result that the contract pins to a literal is used as that literal from now on
+		for i, rv := range rvals {
+			if t, ok := rv.(*Term); ok && t.Op == "const" {
+				x.pinResult(f, t)
+				if lit, ok := x.b.known[t]; ok {
+					rvals[i] = lit
+					for _, n := range rnames[i] {
+						post.names[n] = lit
+					}
+				}
+			}
+		}
 	}
 	switch len(rvals) {
 	case 0:
@@ -671,7 +694,7 @@ func (x *Exec) dryRunLoop(st *State, loop *Loop, spec *LoopSpec, phis []*ssa.Phi
 	bad := map[*ssa.Phi]bool{}
 	for iter := 0; iter < 4; iter++ {
 		s2 := st.fork()
-		rec := &recorder{targets: map[string]map[*Term]bool{}, whole: map[string]bool{}, phiBad: bad}
+		rec := &recorder{targets: map[string]map[*Term]bool{}, whole: map[string]bool{}, phiBad: bad, nonpos: map[string]map[*Term]bool{}}
 		s2.rec = nil
 		mark := x.b.nextID
 		// pessimistic havoc of everything known, fresh epoch for heaps touched later
@@ -720,20 +743,30 @@ func (x *Exec) dryRunLoop(st *State, loop *Loop, spec *LoopSpec, phis []*ssa.Phi
 			continue // some slice phi changes its object: redo pessimistically
 		}
 		// classify targets
-		out := &recorder{targets: map[string]map[*Term]bool{}, whole: map[string]bool{}, all: rec.all, phiBad: bad}
+		out := &recorder{targets: map[string]map[*Term]bool{}, whole: map[string]bool{}, all: rec.all, phiBad: bad, negonly: map[string]bool{}}
+		hardWhole := map[string]bool{}
 		for h := range rec.whole {
 			out.whole[h] = true
+			hardWhole[h] = true
 		}
 		for h, objs := range rec.targets {
 			for o := range objs {
 				if x.variant(o, mark, dryEpoch) {
 					out.whole[h] = true
+					if !rec.nonpos[h][o] {
+						hardWhole[h] = true
+					}
 				} else {
 					if out.targets[h] == nil {
 						out.targets[h] = map[*Term]bool{}
 					}
 					out.targets[h][o] = true
 				}
+			}
+		}
+		for h := range out.whole {
+			if !hardWhole[h] {
+				out.negonly[h] = true
 			}
 		}
 		_ = fr
@@ -780,4 +813,32 @@ func (x *Exec) variant(t *Term, mark int, epoch int) bool {
 		return false
 	}
 	return rec(t)
+}
+
+// pinResult records sym == literal when f is such an equation (or a conjunction containing one),
+// also through one step of sym == t where t is already known to be a literal.
+func (x *Exec) pinResult(f *Term, sym *Term) {
+	switch f.Op {
+	case "and":
+		for _, a := range f.Args {
+			x.pinResult(a, sym)
+		}
+	case "=":
+		l, r := f.Args[0], f.Args[1]
+		if r == sym {
+			l, r = r, l
+		}
+		if l != sym {
+			return
+		}
+		if r.Op == "int" {
+			x.b.known[sym] = r
+			x.b.symLo[sym], x.b.symHi[sym] = r.Val, r.Val
+			x.b.bcache = map[*Term][2]*big.Int{}
+		} else if lit, ok := x.b.known[r]; ok {
+			x.b.known[sym] = lit
+			x.b.symLo[sym], x.b.symHi[sym] = lit.Val, lit.Val
+			x.b.bcache = map[*Term][2]*big.Int{}
+		}
+	}
 }
